@@ -1,5 +1,6 @@
 """C01 — binary encoding round-trips and is exactly the documented layout."""
 from .. import gen
+from . import sizes
 
 SPEC_THEOREM = 'Codec: to_vec v = enc v (layout) and parse_jsonb (enc v) = Ok (normalise v)'
 TRUSTED = ['Coq 8.16.1 kernel (coqc, full .vo build)', 'translator tools/translate_consts.py (tags, masks)',
@@ -54,6 +55,9 @@ def generate(ctx):
             v2 = ('o', [(b'k', v2)])
             v3 = ('a', [v3, e_o]) if i % 2 else ('o', [(b'x', v3)])
         vals += [v1, v2, v3]
+    # strings and keys whose length needs the second / third length byte of the entry word (255, 256, 257, 4096, 65535, 65536
+    # bytes; multi-byte text crossing 256), containers of 255 .. 1000 members of every kind (sizes.py; second review H2)
+    vals += [v for _, v in sizes.string_docs() + sizes.container_docs()]
     for x in gen.INT_POOL:
         vals.append(('i', x))
         vals.append(('a', [('i', x), ('s', b'x')]))
